@@ -8,7 +8,7 @@ from ..vec import El, Sc, Vec
 from .c17 import equal_flags, t10
 
 DATA_CARRIERS = ['list_none', 'list_nan', 'tuple_nan', 'ndarray', 'series', 'masked_nan', 'masked']
-TIME_CARRIERS = ['dt64', 'dt64_s', 'epoch_list', 'epoch_array', 'series', 'series_tz', 'dtindex', 'dtindex_tz', 'pydatetime', 'dtindex_s', 'dtindex_ms', 'series_s', 'series_us', 'epoch_series', 'epoch_index']
+TIME_CARRIERS = ['dt64', 'dt64_s', 'epoch_list', 'epoch_array', 'series', 'series_tz', 'dtindex', 'dtindex_tz', 'pydatetime', 'dtindex_s', 'dtindex_ms', 'series_s', 'series_us', 'epoch_series', 'epoch_index', 'timestamp_list']
 
 
 def tests():
@@ -222,6 +222,9 @@ def compare(ck, rule, test, carrier, cb, ob, cx, ox):
     key = f'{fn_key(cb)}:{carrier}'
     # a container that the test writes into gives other flags the next time it is used, while a list / tuple / Series of the same values
     # (which the test had to copy) does not: no store into a caller-owned array
+    env = [e for e in ox.events if e['kind'] == 'env-read']
+    if env:
+        ck.violate(rule, f'{key}:reads-ambient-environment', f'{cx.label}: the result depends on the {env[0]["what"]}: the same times give other flags on another machine')
     muts = [e for e in ox.events if e['kind'] == 'mutation' and not str(e.get('owner', '')).startswith('module-state')]
     if muts:
         from ..repo import unparse
